@@ -5,15 +5,21 @@ the table (node kind -> symbolic action) of its arms; for every other method, wh
 
 Usage: gen_dispatch.py <repo> <out.v>
 
-The action symbols (model/DispatchKinds.v) are recovered from the canonicalised text of the arm body
-(rustmatch.py): robust against whitespace, comments, arm order, renamed locals / parameters / pattern
-bindings, `self.state` vs a let-bound alias, message texts; NOT robust against the integer type read, the
-visitor method called, the flag given to BlockReader::new, a constant size, a guard, an added or removed
-arm, an added statement. An arm that is not recognised becomes `AUnknown "<canonical text>"` (the
-translator never fails on it): the tie theorem (proofs/DeDispatchTie.v) then fails and shows the arm."""
-import re, sys
-sys.path.insert(0, __file__.rsplit("/", 1)[0])
+The action symbols (model/DispatchKinds.v) are recovered from the canonical text of the arm body: the function
+body is parsed (rustast.py) and normalised (rustnorm.py: constants resolved, single-use lets substituted, if / match
+/ return forms unified, locals renamed in binding order, message texts blanked; the rule templates below go through
+the same normalisation), so the tables are robust against whitespace, comments, arm order, or-patterns, renamed
+locals / parameters / pattern bindings, `self.state` vs a let-bound alias, named constants, values computed in a
+`let` first, flipped if/else, early returns, message texts -- and, when an arm is not recognised as written, against
+a private helper of the same file called instead of the code; NOT robust against the integer type read, the visitor
+method called, the flag given to BlockReader::new, a constant's value, a guard, an added or removed arm, an added
+statement. An arm that is not recognised becomes `AUnknown "<canonical text>"` (the translator never fails on it):
+the tie theorem (proofs/DeDispatchTie.v) then fails and shows the arm."""
+import os, re, sys
+sys.path.insert(0, os.path.dirname(os.path.abspath(__file__)))
 import rustmatch as R
+import rustast as A
+import rustnorm as N
 from rustmatch import ShapeError
 
 KINDS = ["Null", "Boolean", "Int", "Long", "Float", "Double", "Bytes", "String", "Array", "Map",
@@ -37,12 +43,31 @@ PH = {
     "__N__": r"(?P<N>\d+)",
     "__H__": r"(?P<H>[A-Za-z0-9]+)",
     "__ANY__": r"(?P<ANY>.*?)",
-    "__SELFTY__": r"(?:Self|DatumDeserializer)",
 }
+# names that are bound outside an arm (the rule templates use them as free variables)
+TEMPLATE_OUTER = ["__V", "__b", "__n"] + ["__p%d" % i for i in range(6)]
 
-def rx(template):
-    toks = R.drop_trailing_commas(R.tokenize(template))
-    return re.compile(" ".join(PH.get(t, re.escape(t)) for t in toks) + r"\Z")
+def template_text(template, ph=PH, self_type="DatumDeserializer"):
+    """a rule template (Rust with placeholders) -> its canonical text, through the same normalisation as the arms"""
+    toks = R.tokenize(template)
+    toks = ["true" if t == "__B__" else t for t in toks]          # a placeholder in literal position
+    if toks and toks[0] == "{" and R.match_close(toks, 0) == len(toks) - 1:
+        toks = toks[1:-1]
+    body = A.parse_block_tokens(toks)
+    body = N.normalize_body(body, None, None, self_type)
+    txt = N.canonical_text(body, None, statements=False)
+    return txt
+
+def rx(template, ph=PH, self_type="DatumDeserializer"):
+    has_b = "__B__" in template
+    txt = template_text(template, ph, self_type)
+    parts = []
+    for t in txt.split(" "):
+        if has_b and t == "true":
+            parts.append(ph["__B__"])
+        else:
+            parts.append(ph.get(t, re.escape(t)))
+    return re.compile(" ".join(parts) + r"\Z")
 
 BLOCK_READER = "BlockReader::new(self.state, __B__, self.allowed_depth.dec()?)"
 INT_OF_VISIT = {"i32": "i32", "i64": "i64", "u32": "u32", "u64": "u64"}
@@ -72,12 +97,12 @@ def balanced(s):
     except Exception:
         return False
 
-OPTION_UNION_PIN = " ".join(R.drop_trailing_commas(R.tokenize("""{
-    let __l0: usize = read_discriminant(self.state)?;
-    match __b.variants.get(__l0).map(|&__c0| __c0.as_ref()) {
+OPTION_UNION_PIN = template_text("""{
+    let union_discriminant: usize = read_discriminant(self.state)?;
+    match __b.variants.get(union_discriminant).map(|&schema_key| schema_key.as_ref()) {
         None => Err(DeError::new("_")),
         Some(SchemaNode::Null) => __V.visit_none(),
-        Some(variant_schema) if __b.variants.len() == 2 && matches!(*__b.variants[1 - __l0], SchemaNode::Null) => {
+        Some(variant_schema) if __b.variants.len() == 2 && matches!(*__b.variants[1 - union_discriminant], SchemaNode::Null) => {
             __V.visit_some(DatumDeserializer { state: self.state, schema_node: variant_schema, allowed_depth: self.allowed_depth.dec()? })
         }
         Some(variant_schema) => {
@@ -86,7 +111,7 @@ OPTION_UNION_PIN = " ".join(R.drop_trailing_commas(R.tokenize("""{
             })
         }
     }
-}""")))
+}""")
 
 # (regex over the canonical text, function match -> Coq term or None)
 RULES = [
@@ -115,7 +140,7 @@ RULES = [
     (rx("""{ let mut __l0 = ArraySeqAccess { elements_schema: __b.as_ref(), block_reader: %s };
              let __l1 = __V.visit_seq(&mut __l0)?; __l0.block_reader.expect_end()?; Ok(__l1) }""" % BLOCK_READER),
         lambda m: "ATupleSeq %s" % m["B"]),
-    (rx("""__SELFTY__ { schema_node: read_union_discriminant(self.state, __b)?, state: self.state,
+    (rx("""DatumDeserializer { schema_node: read_union_discriminant(self.state, __b)?, state: self.state,
                         allowed_depth: self.allowed_depth.dec()? }.deserialize_any(__V)"""), lambda m: "AUnion"),
     (rx("""__V.visit_map(RecordMapAccess { record_fields: __b.fields.iter(), state: self.state,
                                           allowed_depth: self.allowed_depth.dec()? })"""), lambda m: "ARecord"),
@@ -142,94 +167,121 @@ RULES = [
 ]
 
 def fn_context(params):
-    """parameter renaming: the visitor (type V) -> __V, other named parameters -> __p0, __p1 .."""
+    """parameter renaming: the visitor (type V) -> __V, other named parameters -> __p0, __p1 ..
+    params: [(pattern tokens, type tokens)] of rustast.Fn"""
     mapping, n = {}, 0
-    for p in params:
-        q = [x for x in p if x != "mut"]
-        if "self" in q[:3] and ":" not in q:
+    for pat, ty in params:
+        q = [x for x in pat if x != "mut"]
+        if not ty and "self" in q:
             continue
-        if len(q) >= 3 and q[1] == ":" and R.IDENT.match(q[0]):
+        if len(q) == 1 and R.IDENT.match(q[0]):
             if q[0] == "_":
                 continue
-            if q[2:] == ["V"]:
+            if list(ty) == ["V"]:
                 mapping[q[0]] = ["__V"]
             else:
                 mapping[q[0]] = ["__p%d" % n]; n += 1
         else:
-            raise ShapeError("parameter not understood: " + " ".join(p))
+            raise ShapeError("parameter not understood: " + " ".join(pat))
     return mapping
 
-def canon_arm(body, binder, ctx):
-    body = R.drop_trailing_commas(body)
-    body = R.unwrap_closure_blocks(body)
-    body = R.unwrap_block(body)
-    al = {}
-    if body and body[0] == "{" and R.match_close(body, 0) == len(body) - 1:
-        stmts = R.split_top(body[1:-1], ";")
-        al, rest = R.take_aliases(stmts)
-        inner = []
-        for i, s in enumerate(rest):
-            if i:
-                inner.append(";")
-            inner.extend(s)
-        body = R.unwrap_block(["{"] + inner + ["}"])
-    m = dict(ctx)
-    m.update(al)
-    for name, canon in (binder or {}).items():
-        m[name] = [canon]
-    body = R.subst(body, m)
-    body = R.rename_bound(body)
-    body = R.blank_strings(body)
-    return " ".join(body)
+class Source:
+    """one source file, parsed once: its fns, the constants of the crate, the helpers of the file"""
+    def __init__(self, path, crate_src=None):
+        self.path = path
+        self.items = A.scan_items(R.tokenize(open(path).read()))
+        self.env = N.ConstEnv(crate_src)
+        self.env.files[os.path.abspath(path)] = self.items
+        self.helpers = N.Helpers(self.items, self.env, os.path.abspath(path))
 
-def classify(text):
-    for r, f in RULES:
-        m = r.match(text)
-        if m:
-            a = f(m)
-            if a is not None:
-                return a
-    if text == OPTION_UNION_PIN:
-        return "AOptionUnion"
-    return "AUnknown %s" % R.coq_string(text)
+    def fns_of(self, trait, ty):
+        """{name: Fn} of `impl <trait> for <ty>` (trait None: the inherent impls of ty)"""
+        out = {}
+        for f in self.items.fns:
+            if f.owner == (trait, ty) and not f.nested and f.body is not None:
+                if f.name in out:
+                    raise ShapeError("fn %s defined twice" % f.name)
+                out[f.name] = f
+        return out
 
-def table_of(params, body):
-    """-> rows [(dkind term, action term)] sorted by kind"""
-    ctx = fn_context(params)
-    stmts = R.split_top(body, ";")
-    al, rest = R.take_aliases(stmts)
-    if len(rest) != 1 or not rest[0]:
+    def macros_of(self, trait, ty):
+        toks = R.tokenize(open(self.path).read())
+        _, macros = R.functions(R.find_impl(toks, trait, ty))
+        return macros
+
+    def body(self, fn, self_type):
+        return N.normalize_body(A.parse_block_tokens(fn.body), self.env, os.path.abspath(self.path), self_type)
+
+def arm_texts(src, fn, body, outer, self_type):
+    """canonical text of an arm body as written, then (lazily) with the same-file helpers it calls replaced by
+    their bodies (one more level per element)"""
+    yield N.canonical_text(body, outer)
+    cur = body
+    for _ in range(3):
+        try:
+            nxt = N.inline_helpers(N.as_block(cur), src.helpers, fn)
+            nxt = N.normalize_body(nxt, src.env, os.path.abspath(src.path), self_type)
+        except ShapeError:
+            return
+        if nxt == N.as_block(cur) or nxt == cur:
+            return
+        cur = nxt
+        yield N.canonical_text(cur, outer)
+
+def classify(texts):
+    first = None
+    for text in texts:
+        if first is None:
+            first = text
+        for r, f in RULES:
+            m = r.match(text)
+            if m:
+                a = f(m)
+                if a is not None:
+                    return a
+        if text == OPTION_UNION_PIN:
+            return "AOptionUnion"
+    return "AUnknown %s" % R.coq_string(first)
+
+def dispatch_match(body):
+    """the normalised body of a dispatch method: -> the arms of its `match [*]self.schema_node`"""
+    stmts = body[1]
+    if len(stmts) != 1 or stmts[0][0] != "expr":
         raise ShapeError("body is not [aliases;] one expression")
-    expr = R.subst(rest[0], al)
+    expr = stmts[0][1]
     if expr[0] != "match":
         raise ShapeError("body is not a match")
-    k = 1
-    while k < len(expr) and expr[k] != "{":
-        k += 1
-    if k >= len(expr) or R.match_close(expr, k) != len(expr) - 1:
-        raise ShapeError("body is not a single match")
-    scrut = [x for x in expr[1:k]]
-    if scrut[:1] == ["*"]:
-        scrut = scrut[1:]             # match ergonomics: `match *self.schema_node` / `match self.schema_node`
-    if scrut != ["self", ".", "schema_node"]:
-        raise ShapeError("match over %s, not over self.schema_node" % " ".join(scrut))
-    ctx2 = dict(ctx)
-    ctx2.update(al)
+    scrut = expr[1]
+    if scrut[0] == "unary" and scrut[1] == "*":
+        scrut = scrut[2]              # match ergonomics: `match *self.schema_node` / `match self.schema_node`
+    if A.text(scrut) != "self . schema_node":
+        raise ShapeError("match over %s, not over self.schema_node" % A.text(scrut))
+    return expr[2]
+
+def table_of(src, fn):
+    """-> rows [(dkind term, action term)] sorted by kind"""
+    ctx = fn_context(fn.params)
+    body = src.body(fn, "DatumDeserializer")
     rows = []
-    for pat, abody in R.split_arms(expr[k + 1:-1]):
+    for pat, guard, abody in dispatch_match(body):
+        ptoks = []
+        A.pr_pat(pat, ptoks)
         try:
-            kinds, binder, guard = R.parse_pattern(pat)
+            kinds, binder, _ = R.parse_pattern(ptoks)
         except ShapeError as e:
-            rows.append((len(KINDS) + 1, "DKUnparsed %s" % R.coq_string(" ".join(pat)), "AUnknown %s" % R.coq_string(str(e))))
+            rows.append((len(KINDS) + 1, "DKUnparsed %s" % R.coq_string(" ".join(ptoks)), "AUnknown %s" % R.coq_string(str(e))))
             continue
-        action = classify(canon_arm(abody, binder, ctx2))
+        outer = dict(ctx)
+        for name, canon in (binder or {}).items():
+            outer[name] = [canon]
+        action = classify(arm_texts(src, fn, abody, outer, "DatumDeserializer"))
         if guard is not None:
-            g = " ".join(R.subst(guard, ctx2))
-            mg = re.match(r"^__p0 == (\d+)\Z", g)
+            g = N.canonical_text(guard, outer)
+            mg = re.match(r"^(\d+) == __p0\Z", g)
             if mg and not action.startswith("AUnknown"):
                 action = "AGuardLen %s (%s)" % (mg.group(1), action)
             else:
-                action = "AUnknown %s" % R.coq_string("if " + g + " => " + canon_arm(abody, binder, ctx2))
+                action = "AUnknown %s" % R.coq_string("if " + g + " => " + N.canonical_text(abody, outer))
         for kd in kinds:
             if kd == "_":
                 rows.append((len(KINDS), "DKWild", action))
@@ -240,46 +292,41 @@ def table_of(params, body):
     rows.sort(key=lambda r: (r[0], r[1]))        # stable: duplicated kinds keep source order
     return [(k, a) for _, k, a in rows]
 
-def forward_of(params, body):
+def forward_of(src, fn, self_type="DatumDeserializer"):
     """a method that is not a match: the canonical text of its body"""
-    ctx = fn_context(params)
-    stmts = R.split_top(body, ";")
-    al, rest = R.take_aliases(stmts)
-    m = dict(ctx); m.update(al)
-    inner = []
-    for i, s in enumerate(rest):
-        if i:
-            inner.append(";")
-        inner.extend(s)
-    t = R.blank_strings(R.rename_bound(R.subst(R.unwrap_closure_blocks(R.drop_trailing_commas(inner)), m)))
-    return " ".join(t)
+    ctx = fn_context(fn.params)
+    body = src.body(fn, self_type)
+    return N.canonical_text(body, ctx, statements=True)
 
-def translate(path):
+def translate(path, crate_src=None):
     out = ["(* GENERATED by translators/gen_dispatch.py from serde_avro_fast/src/de/deserializer/mod.rs -- do not edit *)",
            "From Coq Require Import String List NArith.",
            "Require Import Base Kinds DispatchKinds.",
            "Import ListNotations.",
            "Open Scope string_scope.",
            "Open Scope N_scope."]
-    fns, macros, err = {}, [], None
+    fns, macros, err, src = {}, [], None, None
     try:
-        toks = R.tokenize(open(path).read())
-        impl = R.find_impl(toks, "Deserializer", "DatumDeserializer")
-        fns, macros = R.functions(impl)
+        src = Source(path, crate_src)
+        fns = src.fns_of("Deserializer", "DatumDeserializer")
+        macros = src.macros_of("Deserializer", "DatumDeserializer")
     except (ShapeError, OSError) as e:
         err = str(e)
     wanted = dict(TABLES)
     tables = {}
     forwards = []
     for name in sorted(fns):
-        params, body = fns[name]
+        fn = fns[name]
         try:
-            tables[name] = table_of(params, body)
+            try:
+                tables[name] = table_of(src, fn)
+            except (IndexError, KeyError, TypeError, RecursionError, AttributeError) as e:
+                raise ShapeError("construct not understood (%s)" % type(e).__name__)
         except ShapeError as e:
             if name in wanted:
                 tables[name] = [("DKWild", "AUnknown %s" % R.coq_string("%s: %s" % (name, e)))]
             try:
-                forwards.append((name, forward_of(params, body)))
+                forwards.append((name, forward_of(src, fn)))
             except ShapeError as e2:
                 forwards.append((name, "? " + str(e2)))
     for path_, mt in macros:
@@ -307,7 +354,7 @@ def translate(path):
 
 if __name__ == "__main__":
     repo, outp = sys.argv[1], sys.argv[2]
-    txt = translate(repo + "/serde_avro_fast/src/de/deserializer/mod.rs")
+    txt = translate(repo + "/serde_avro_fast/src/de/deserializer/mod.rs", repo + "/serde_avro_fast/src")
     try:
         old = open(outp).read()
     except OSError:
